@@ -18,7 +18,8 @@
 (*               Begin(op)  GetTx + exists/replace rules -> reject, or open *)
 (*                          a tx with the op's write sequence              *)
 (*               TxWrite    next tx.Put / tx.Delete on the tx's private copy *)
-(*               TxFail     that write fails -> error -> DoUpdate rolls back *)
+(*               TxFail     that write (or the commit) fails -> error ->    *)
+(*                          DoUpdate's deferred Rollback                    *)
 (*               Commit     all writes done -> tx.Commit                   *)
 (*               Reopen     close + open of the file (an open tx is lost)  *)
 (*             Reads (Get, List, ReverseList with DoListFunc pagination)   *)
@@ -234,8 +235,8 @@ TxWrite ==
     /\ tx' = ApplyW(tx, Head(pend)) /\ pend' = Tail(pend)
     /\ UNCHANGED <<kv, open, cur, res, objs>>
 
-TxFail ==
-    /\ Faults /\ open /\ pend # <<>>
+TxFail ==                \* the next tx.Put/tx.Delete fails, or (pend = <<>>) tx.Commit fails
+    /\ Faults /\ open
     /\ open' = FALSE /\ tx' = <<>> /\ pend' = <<>> /\ cur' = NoOp /\ res' = "err"   \* deferred tx.Rollback()
     /\ UNCHANGED <<kv, objs>>
 
